@@ -11,6 +11,7 @@ from hypothesis import HealthCheck, Phase, given, settings
 from hypothesis import strategies as st
 
 from .common import HarnessError, PropertyViolated, Tally, Violation, jsonable, open_signatures
+from .timeouts import CaseTimeout, time_limit
 
 
 def base_settings(max_examples: int, **kw) -> settings:
@@ -121,7 +122,12 @@ def hyp_drive(
             if coll.quiet():
                 return  # shrink budget exhausted: let the shrinker finish immediately
             executed[0] += 1
-            vs = body(case)
+            try:
+                with time_limit():
+                    vs = body(case)
+            except CaseTimeout:
+                tally.aborted["timeout"] = tally.aborted.get("timeout", 0) + 1
+                return
             coll.handle(case, vs)
 
         wrapped = hypothesis.seed(seed + rnd * 15485863)(
